@@ -257,7 +257,117 @@ class _LoadG3(ast.NodeTransformer):
         return node
 
 
+# ---------------------------------------------------------------- format_float on digit strings
+DECADES = list(range(-31, 13))
+
+
+def t_format_float(eng):
+    """format_float((f,), use_e) executed on digit strings (pyvc/digits.py) for every decade 1e-31 <= |f| < 1e13, both
+    signs, use_e on and off, and for f = 0.  Contract, from the property: read back as text the result equals f within
+    5e-6 relative -- or, for fixed-point fields (|f| < 0.1 without use_e), within 1e-6 absolute; it never shows a sign
+    different from f's unless it shows zero, and never '-0'.
+    The decade is a precondition of each path; with it goes the fact about the real logarithm that the code's
+    `int (np.log (abs (f)) / np.log (10))` relies on: d <= log|f|/log 10 < d+1, with equality on the left only for
+    |f| = 10^d (float rounding of that quotient at exact powers of ten is outside this model: native lattice)."""
+    from pyvc import digits as D
+    n = P + '/format_float/'
+    eng.digit_mode = True
+    use_e = eng.choose(2)
+    which = eng.choose(len(DECADES) + 1)
+    f = fresh_real('f')
+    fn = eng.get_fnode('format_float')
+    if which == len(DECADES):
+        eng.assume(r_cmp('==', f, 0))
+        lab = 'zero'
+    else:
+        d = DECADES[which]
+        lab = 'decade%+03d' % d
+        lo, hi = Fraction(10) ** d, Fraction(10) ** (d + 1)
+        af = B.np_abs(eng, [f], {})
+        eng.assume(b_and(r_cmp('>=', af, lo), r_cmp('<', af, hi)))
+        # the logarithm fact, attached to the very term the code computes
+        calls = [c for c in ast.walk(fn) if isinstance(c, ast.Call) and isinstance(c.func, ast.Name) and c.func.id == 'int'
+                 and 'log' in ast.unparse(c)]
+        if len(calls) != 1:
+            from pyvc.source import Unresolved
+            raise Unresolved('int (log ...) in format_float')
+        env0 = {'f': f}
+        eng.frames.append({'fref': eng.fref('format_float'), 'env': env0, 'qual': 'format_float', 'node': fn})
+        try:
+            t = eng.eval(calls[0].args[0], env0)
+        finally:
+            eng.frames.pop()
+        eng.assume(b_and(r_cmp('>=', t, d), r_cmp('<', t, d + 1)))
+        eng.assume(SV(bterm(r_cmp('==', t, d)) == bterm(r_cmp('==', af, lo)), 'bool'))
+    r = eng.call_qual('format_float', [(f,), use_e])
+    eng.cover('format_float-%s-use_e%d' % (lab, use_e))
+    ok = isinstance(r, tuple) and len(r) == 1 and isinstance(r[0], D.DBase)
+    eng.oblige(n + 'one-number-text-per-value', ok, detail=repr(r)[:80])
+    if not ok:
+        return
+    s = r[0]
+    ft = term(f, True)
+    absf = z3.If(ft >= 0, ft, -ft)
+    if isinstance(s, D.DSci):
+        M = s.M.t if isinstance(s.M, SV) else z3.IntVal(s.M)
+        v = z3.ToReal(M) * z3.RealVal(str(Fraction(10) ** (s.exp - 6)))
+        neg = bterm(s.neg)
+        zero = M == 0
+        eng.oblige(n + 'exponent-notation-only-for-use_e-below-0.1', bool(use_e) and bterm(SV(absf < z3.RealVal('1/10'), 'bool')))
+        eng.oblige(n + 'exponent-notation-is-upper-case', s.upper)
+    else:
+        M = s.M.t if isinstance(s.M, SV) else z3.IntVal(s.M)
+        v = z3.ToReal(M) / z3.RealVal(10 ** s.p)
+        neg = bterm(s.neg)
+        zero = M == 0
+        eng.oblige(n + 'fixed-notation-fills-the-9-column-field-or-is-an-integer-wider-than-it',
+                   s.length() == 9 or (not s.point and s.p == 0 and s.length() > 9) or (not s.point and s.length() < 9),
+                   detail='length %d %r' % (s.length(), s))
+        eng.oblige(n + 'keeps-its-sign-column', s.signch)
+    fixed = z3.And(absf < z3.RealVal('1/10'), z3.BoolVal(not use_e))
+    err = z3.If(v >= absf, v - absf, absf - v)
+    eng.oblige(n + 'reads-back-within-5e-6-relative-(1e-6-absolute-for-fixed-point-fields)',
+               SV(z3.If(fixed, err <= z3.RealVal('1/1000000'), err <= z3.RealVal('5/1000000') * absf), 'bool'))
+    eng.oblige(n + 'sign-shown-is-the-sign-of-the-value-unless-zero-is-shown', SV(z3.Or(zero, neg == (ft < 0)), 'bool'))
+    eng.oblige(n + 'never-shows-minus-zero', SV(z3.Not(z3.And(zero, neg)), 'bool'))
+
+
+class _ClipAlways(ast.NodeTransformer):
+    """the 9-character clip applied to every fixed-notation string, with or without a decimal point"""
+
+    def visit_If(self, node):
+        self.generic_visit(node)
+        if ast.unparse(node.test).replace(' ', '') == "'.'ins":
+            clip = [st for st in node.body if isinstance(st, ast.Assign) and ast.unparse(st.value).replace(' ', '') == 's[:9]']
+            if clip:
+                node.body = [st for st in node.body if st is not clip[0]]
+                return [clip[0], node]
+        return node
+
+
+class _FivePlaces(ast.NodeTransformer):
+    def visit_Constant(self, node):
+        if node.value == 6 and not isinstance(node.value, bool):
+            return ast.Constant(5)
+        return node
+
+
+class _KeepMinusZero(ast.NodeTransformer):
+    def visit_If(self, node):
+        self.generic_visit(node)
+        if "'-0'" in ast.unparse(node.test):
+            return ast.Pass()
+        return node
+
+
+U_FF = Unit(P + '/format_float', ['format_float'], t_format_float, SCH,
+            notes='range-bounded as the property is: 1e-31 <= |f| < 1e13 (44 decades, each with symbolic f) and f = 0; real arithmetic',
+            canaries=[Canary('clip-applied-to-integers-too', 'format_float', _ClipAlways, [P + '/format_float/reads-back']),
+                      Canary('one-digit-less', 'format_float', _FivePlaces, [P + '/format_float/reads-back']),
+                      Canary('minus-zero-kept', 'format_float', _KeepMinusZero, [P + '/format_float/never-shows'])])
+
 UNITS = [
+    U_FF,
     Unit(P + '/Pulse.as_mininec', ['Pulse.as_mininec'], t_pulse, SCH),
     Unit(P + '/Medium.as_mininec', ['Medium.as_mininec'], t_medium, SCH),
     Unit(P + '/Excitation-listings', ['Excitation.as_mininec', 'Excitation.as_mininec_short'], t_sources, SCH,
